@@ -53,6 +53,8 @@ type Rec struct {
 	Batches []Batch `json:"batches,omitempty"` // stream
 	PartKeys []string `json:"part_keys,omitempty"`
 	Node    int    `json:"node"`
+	InvMs   int64  `json:"inv_ms"`
+	RetMs   int64  `json:"ret_ms"`
 }
 
 // Batch is one message of a streamed range.
